@@ -18,7 +18,9 @@
 //!        the WRITE side through the layers a server uses: `EncodeBody::new_server` whose source
 //!        yields k messages and then `Err(status)` (eb: trailers = `Status::to_header_map`), and
 //!        `server::Grpc::{unary, client_streaming, server_streaming, streaming}` whose handler
-//!        fails at once (`-`: trailers-only response = `Status::into_http`) or after k messages.
+//!        fails at once (`-`: trailers-only response = `Status::into_http`) or after k messages;
+//!        `re`: `service::RecoverError` around a service whose error has the status in its source
+//!        chain; `ri`: a server-side interceptor (`InterceptedService`) that refuses the call.
 //!        Observed: response headers, number of DATA bytes, trailers, and what
 //!        `Status::from_header_map` reads back from the block that carries the status.
 //!   mk <how> <status>
@@ -359,6 +361,42 @@ fn wr_case<'a>(it: &mut impl Iterator<Item = &'a str>) -> String {
                 let body = tonic::codec::EncodeBody::new_server(RawEncoder, failing_stream(k.unwrap_or(0), st), None, Default::default(), None);
                 let (nd, tr, odd) = drain(body).await;
                 (HeaderMap::new(), nd, tr, odd)
+            } else if path == "re" || path == "ri" {
+                use tower::{Service, ServiceExt};
+                let req = http::Request::new(tonic::body::Body::empty());
+                let resp_headers = if path == "re" {
+                    // `RecoverError` around a service that fails with the status as its error
+                    let boxed = std::sync::Mutex::new(Some(st));
+                    let inner = tower::service_fn(move |_req: http::Request<tonic::body::Body>| {
+                        let st = boxed.lock().unwrap().take().expect("called once");
+                        async move { Err::<http::Response<tonic::body::Body>, Box<dyn std::error::Error + Send + Sync>>(Box::new(Wrap(Box::new(st)))) }
+                    });
+                    let mut svc = tonic::service::RecoverError::new(inner);
+                    match svc.ready().await {
+                        Ok(svc) => match svc.call(req).await {
+                            Ok(resp) => resp.into_parts().0.headers,
+                            Err(_) => return "not-recovered".to_string(),
+                        },
+                        Err(_) => return "not-ready".to_string(),
+                    }
+                } else {
+                    // a server-side interceptor that refuses the call with the status
+                    let inner = tower::service_fn(|_req: http::Request<tonic::body::Body>| async move {
+                        Ok::<http::Response<tonic::body::Body>, std::convert::Infallible>(http::Response::new(tonic::body::Body::empty()))
+                    });
+                    let mut veto = Some(st);
+                    let mut svc = tonic::service::interceptor::InterceptedService::new(inner, move |_r: Request<()>| -> Result<Request<()>, Status> {
+                        Err(veto.take().expect("called once"))
+                    });
+                    match svc.ready().await {
+                        Ok(svc) => match svc.call(req).await {
+                            Ok(resp) => resp.into_parts().0.headers,
+                            Err(_) => return "not-answered".to_string(),
+                        },
+                        Err(_) => return "not-ready".to_string(),
+                    }
+                };
+                (resp_headers, 0, None, "")
             } else {
                 let mut grpc = tonic::server::Grpc::new(RawCodec);
                 let mut req = http::Request::new(tonic::body::Body::new(http_body_util::Full::new(Bytes::from(vec![0u8, 0, 0, 0, 2, 1, 2]))));
@@ -718,7 +756,8 @@ pub fn generate(tier: &str, rng: &mut Rng, out: &mut Vec<String>) {
     }
 
     // ---- wr: every code through every write path; then random statuses
-    let paths: [(&str, Option<u64>); 9] = [("eb", Some(0)), ("eb", Some(2)), ("su", None), ("sc", None), ("ss", None), ("ss", Some(0)), ("ss", Some(2)), ("sb", None), ("sb", Some(1))];
+    let paths: [(&str, Option<u64>); 11] =
+        [("eb", Some(0)), ("eb", Some(2)), ("su", None), ("sc", None), ("ss", None), ("ss", Some(0)), ("ss", Some(2)), ("sb", None), ("sb", Some(1)), ("re", None), ("ri", None)];
     let ktok = |k: Option<u64>| k.map(|k| k.to_string()).unwrap_or_else(|| "-".into());
     for c in 0..=16u64 {
         for (p, k) in paths {
